@@ -13,8 +13,16 @@ SPEC = {
         'C18_binding',
         'C18_equal_siblings_flagged',
         'C18_child_roots_verify',
+        'C18_transaction_sort_sorted',
+        'C18_served_proofs_verify_refuted',
+        'C18_served_proofs_verify_partial',
+        'C18_served_proofs_verify',
+        'C18_served_proof_binding',
+        'C18_served_block_binding',
+        'C18_h_eqb_correct',
         'C18_example_duptail',
         'C18_example_parallel_and_branch',
+        'C18_example_served',
     ],
     'allowed_axioms': [],
     'shard': 450,
@@ -26,28 +34,51 @@ SPEC = {
             'for counts <= 64 (thorough 300) plus out-of-range positions, sampled positions for larger counts; mixed main/para-chain '
             'transaction lists (0..5 segments, 4 titles, some segments above the 80-leaf threshold) through CalcMultiLayerMerkleInfo/'
             'CalcMerkleRoot with the two GetMerkleBranch calls of getMultiLayerProofs. '
+            'serve stream (serve.go): one real test node (memdb) with ForkRootHash moved to height 6; blocks over main + 5 para titles '
+            '(user.p.B./a./ab./b./game., ids = rank in byte order) in grouped, regrouped, interleaved and split-group orders: '
+            'producer blocks (util.CreateNewBlock + ExecBlock, connected by ProcessBlock as peer blocks), blocks mined by the node\'s solo '
+            'consensus from the mempool, and raw blocks carrying the generated order with TxHash as util.ExecBlock computes it '
+            '(unrestricted: known finding 1 when unsorted after the fork; guarded = pre-fork, producer, mined and raw-in-order blocks); '
+            'per stored block: header TxHash, LoadParaTxByHeight rows, QueryTx reply of every transaction through the queue API; '
+            '5 pre-fork + ~53 post-fork blocks quick (~400 thorough, some child chains above the 80-leaf threshold). '
             'non-trivial = at least two leaves/transactions (and an in-range position for branch cases); distinct = distinct Gallina case terms',
     'trusted_base': [
         'crypto/sha256 and the harness\'s own 5-line double hash + level-by-level reference tree (independent of merkle.go) produce the '
         'hash table (left id, right id, digest id) the Coq model looks hashes up in; the harness interns 32-byte values as ids per case '
         '(TCanon shorthand is only used after the harness checked that its interned table equals the canonical numbering)',
         'taskset(1) and runtime.NumCPU() following the affinity mask (the harness aborts if a child sees a different CPU count)',
-        'C18_binding is stated in the free term algebra h (leaves are atoms, H2 injective): stands for collision freedom of double SHA-256; '
-        'all other theorems hold for an arbitrary hash function',
+        'C18_binding, C18_served_proof_binding, C18_served_block_binding and the refutation witness are stated in the free term algebra h '
+        '(leaves are atoms, H2 injective): stands for collision freedom of double SHA-256; '
+        'all other theorems hold for an arbitrary hash function (the served-proof theorems: with a correct equality test, hypothesis eqT x y = true <-> x = y; '
+        'C18_h_eqb_correct shows it for the algebra, N.eqb is used in the check)',
+        'the client-side verification procedure verify_reply is modelled after blockchain/chain_test.go testProcQueryTxMsg / the paracross plugin '
+        '(chain33 itself contains no verifier of a QueryTx reply); it is stricter than the test: no TxProofs after the fork = not verified',
+        'serve stream: the test node (util/testnode, solo consensus, memdb), the queue API and the executor are used as they are; the harness re-implements '
+        'the scan of calcMultiLayerMerkleInfo on title ids and a stable sort by title only to know which hash facts to tabulate',
     ],
     'assumptions': [
         'leaves are 32-byte values (GetHashFromTwoHash copies into a 64-byte buffer), fewer than 2^32 leaves (inner[32], uint32 position), '
         'Go int arithmetic does not overflow; matchlevel sentinel 0xff modelled as None',
         'goroutine scheduling in GetMerkleRoot/calcMultiLayerMerkleInfo is modelled as a map over chunks (results are placed by index, no shared writes)',
         'a transaction is abstracted to (para title or main, full hash); types.GetParaExecTitleName is taken as given',
-        'blockchain/query_tx.go getMultiLayerProofs needs a chain database; its two GetMerkleBranch calls are replayed by the harness on the '
-        'CalcMultiLayerMerkleInfo output instead of going through the database',
+        'multi stream: the two GetMerkleBranch calls of getMultiLayerProofs are replayed by the harness on the CalcMultiLayerMerkleInfo output; '
+        'the serve stream goes through the real ProcQueryTxMsg / getMultiLayerProofs / para-tx table on a node',
+        'ModelServe: a transaction is (title, tx.Hash(), tx.FullHash()); titles are numbers order-isomorphic to the title strings (byte order, main first: '
+        'checked by the harness for its title set); the para-tx table of one height is a title-ordered association list (Replace on (height,title), '
+        'rows of the height belong to the stored block: delParaTxTable on rollback, the harness marks foreign rows); block_txhash is what util.ExecBlock '
+        'leaves in / demands of the header (root of TransactionSort(txs) after the fork, root of tx.Hash() before); int32/uint32 index arithmetic does not overflow; '
+        'the isParaChain branch of getMultiLayerProofs / ProcQueryTxMsg is in the model (flag is_para) but theorems and harness cover main-chain nodes only '
+        '(a para-chain node needs the para consensus plugin)',
     ],
     'manifest': {
         'level_text': 'full for consistency (parallel = sequential = constant-space = recursive tree root, every worker count and leaf count) and '
                       'provability (every branch verifies, also through child chains) for an arbitrary hash function; binding in the symbolic '
                       'hash algebra: equal roots imply equal lists or lists related by the duplicated-tail pattern (that pattern preserves the root for every hash), '
-                      'and the longer list is reported as mutated (any two equal aligned sibling blocks set the flag)',
+                      'and the longer list is reported as mutated (any two equal aligned sibling blocks set the flag). '
+                      'Proof serving (QueryTx: TransactionSort, header TxHash, para-tx table, getMultiLayerProofs, client check): full for every block '
+                      'the producers build (any mix/order of main and para transactions, both sides of ForkRootHash) and binding of a served reply; '
+                      'partial for received blocks: guarded by the stored list being title-sorted, because the node accepts unsorted blocks whose served proofs '
+                      'do not verify (C18_served_proofs_verify_refuted, known finding 1, reproduced on a real node)',
         'level_note': 'Trusted: Coq kernel; crypto/sha256 and the harness reference used to tabulate hashes; taskset/NumCPU; symbolic hash for binding.',
         'technique': 'Coq proof (binary-counter invariant over the leaf list, level-wise reduction lemma for the chunked root) + in-kernel correspondence check with a table-backed hash',
     },
